@@ -1,10 +1,7 @@
 (* C06 No input makes the library panic: every panic site of the crate's own source is unreachable, or is one of the three documented ones *)
 Load "coq/props/Hdr".
-From PM Require Import C06 Exec.
-Lemma src_rt : rt_ok cfg. Proof. apply conds_rt_ok. vm_compute. reflexivity. Qed.
-Lemma src_tbl : tbl_ok cfg. Proof. apply conds_tbl_ok. vm_compute. reflexivity. Qed.
-Lemma src_cfg_ok : cfg_ok cfg. Proof. exact (rt_cfg _ src_rt). Qed.
-Ltac sc := sidecond_with src_rt src_tbl.
+From PM Require Import C06 Exec Final.
+Lemma src_cfg_ok : cfg_ok cfg. Proof. sc. Qed.
 Theorem C06_index_after_found : forall q k j, QInv cfg q -> valid_key cfg k = true -> search_from cfg q k 0 = Found j -> (j < length q)%nat.
 Proof. apply search_found_in_bounds; sc. Qed.
 Print Assumptions C06_index_after_found.
@@ -28,3 +25,14 @@ Print Assumptions C06_typed_keys_valid.
 Theorem C06_comparator_total : forall a b, exists c, qkey_cmp cfg a b = c.
 Proof. intros a b. eexists. reflexivity. Qed.
 Print Assumptions C06_comparator_total.
+(* the executed operation languages (what the correspondence check runs against the crate) panic only where documented *)
+Theorem C06_qualifiers_panic_only_index_of_absent_key : forall q o, QInv cfg q -> snd (qxstep cfg q o) = XoPanic ->
+  exists k, (o = QIdx k \/ exists v, o = QIdxSet k v) /\ q_get cfg q k = None.
+Proof. apply qxstep_panics_only_when_documented; try sc; vm_compute; reflexivity. Qed.
+Print Assumptions C06_qualifiers_panic_only_index_of_absent_key.
+Theorem C06_builder_calls_never_panic : forall (T : Type) (b : T * parts) o, xstep cfg b o <> Err StopPanic.
+Proof. intros T. apply xstep_never_panics; try sc; vm_compute; reflexivity. Qed.
+Print Assumptions C06_builder_calls_never_panic.
+Theorem C06_checksum_text_never_panics : forall m, cs_text_of cfg m <> CsPanic.
+Proof. apply cs_text_never_panics. sc. Qed.
+Print Assumptions C06_checksum_text_never_panics.
